@@ -11,6 +11,7 @@ import (
 	"go/token"
 	"go/types"
 	"sort"
+	"strconv"
 	"strings"
 
 	"golang.org/x/tools/go/ssa"
@@ -85,6 +86,7 @@ type Exec struct {
 	nilcheck bool
 	sweep  bool
 	decAtHeader map[*ssa.BasicBlock]Val
+	headerEnv   map[*ssa.BasicBlock]*Env
 	closureVals map[Term]*ssa.MakeClosure
 	inlineN int
 }
@@ -117,6 +119,10 @@ func (ex *Exec) addObl(kind string, label string, guard, goal Term, pos token.Po
 	o := &Obligation{Name: name, Kind: kind, Func: ex.top.fname, Mark: ex.c.mark(), Guard: guard, Goal: goal,
 		Pos: ex.v.posStr(pos), Text: text, Safety: safety, Ctx: ex.c, Inputs: ex.top.inputs}
 	*ex.obls = append(*ex.obls, o)
+	if safety {
+		// execution continues past this point only if the check passed
+		ex.c.assume(imp(guard, goal))
+	}
 	return o
 }
 
@@ -276,6 +282,9 @@ func (ex *Exec) constVal(k *ssa.Const) Val {
 					m = (uint64(1) << uint(w)) - 1
 				}
 				str = fmt.Sprint((^bi + 1) & m)
+			}
+			if u64, err := strconv.ParseUint(str, 10, 64); err == nil && w <= 64 {
+				return Val{K: KBV, T: bvLit(w, u64), W: w, Signed: s, Typ: t}
 			}
 			return Val{K: KBV, T: bvLitBig(w, str), W: w, Signed: s, Typ: t}
 		case u.Info()&types.IsFloat != 0:
@@ -469,6 +478,7 @@ func (ex *Exec) enterLoop(h *ssa.BasicBlock, li *loopInfo, preds []*ssa.BasicBlo
 			c.assume(imp(ex.reach[h], t))
 		}
 	}
+	ex.headerEnv[h] = env2
 	// remember header state for the decreases check
 	if li.spec != nil && li.spec.Decreases != nil {
 		dv, err := env2.Value(li.spec.Decreases.E)
@@ -502,6 +512,11 @@ func (ex *Exec) loopEnv(h *ssa.BasicBlock, phiVal func(*ssa.Phi) Val, mem *MemSt
 		if in, ok := val.(ssa.Instruction); ok && in.Block() != nil && in.Block() != h && in.Block().Dominates(h) {
 			if _, clash := env.vars[val.Name()]; !clash {
 				env.vars[val.Name()] = x
+			}
+			if al, ok := val.(*ssa.Alloc); ok && al.Comment != "" {
+				if _, clash := env.vars[al.Comment]; !clash {
+					env.vars[al.Comment] = x
+				}
 			}
 		}
 	}
@@ -548,14 +563,12 @@ func (ex *Exec) havocLoopMemory(li *loopInfo) {
 			switch in := in.(type) {
 			case *ssa.Store:
 				et := in.Addr.Type().Underlying().(*types.Pointer).Elem()
-				if !inLoop(in.Addr) {
-					if a, ok := ex.vals[in.Addr]; ok && a.K == KRef && a.T != "" {
-						cellsToHavoc = append(cellsToHavoc, c.cells(a.T, et)...)
-						continue
-					}
+				if a, ok := ex.staticAddr(in.Addr, inLoop); ok {
+					cellsToHavoc = append(cellsToHavoc, c.cells(a, et)...)
+					continue
 				}
-				if al, ok := in.Addr.(*ssa.Alloc); ok && inLoop(al) {
-					continue // cell allocated inside the iteration
+				if al := rootAlloc(in.Addr); al != nil && inLoop(al) {
+					continue // cell of an object allocated inside the iteration
 				}
 				markType(et)
 			case *ssa.MapUpdate:
@@ -572,6 +585,10 @@ func (ex *Exec) havocLoopMemory(li *loopInfo) {
 					}
 				}
 			case *ssa.Call:
+				if cs, ok := ex.loopCallCells(in.Common(), inLoop); ok {
+					cellsToHavoc = append(cellsToHavoc, cs...)
+					continue
+				}
 				eff := ex.callEffect(in.Common())
 				switch {
 				case eff.all:
@@ -611,6 +628,86 @@ func (ex *Exec) havocLoopMemory(li *loopInfo) {
 	}
 }
 
+func rootAlloc(v ssa.Value) *ssa.Alloc {
+	for {
+		switch x := v.(type) {
+		case *ssa.Alloc:
+			return x
+		case *ssa.FieldAddr:
+			v = x.X
+		case *ssa.IndexAddr:
+			v = x.X
+		default:
+			return nil
+		}
+	}
+}
+
+// staticAddr: the address denoted by v if it is computed from loop-invariant
+// values by field selection only.
+func (ex *Exec) staticAddr(v ssa.Value, inLoop func(ssa.Value) bool) (Term, bool) {
+	if !inLoop(v) {
+		if a, ok := ex.vals[v]; ok && a.K == KRef && a.T != "" && a.EP == nil {
+			return a.T, true
+		}
+		if g, ok := v.(*ssa.Global); ok {
+			return ex.v.globalAddr(ex.c, g), true
+		}
+		return "", false
+	}
+	if fa, ok := v.(*ssa.FieldAddr); ok {
+		if base, ok := ex.staticAddr(fa.X, inLoop); ok {
+			return ex.c.fieldAddr(base, fa.X.Type().Underlying().(*types.Pointer).Elem(), fa.Field), true
+		}
+	}
+	return "", false
+}
+
+// loopCallCells: when a call inside a loop has a contract whose modifies
+// clause is a finite list of cells that depend only on loop-invariant
+// arguments, the exact cells are returned.
+func (ex *Exec) loopCallCells(cc *ssa.CallCommon, inLoop func(ssa.Value) bool) (cells []cell, ok bool) {
+	if cc.IsInvoke() {
+		return nil, false
+	}
+	fn := cc.StaticCallee()
+	if fn == nil {
+		return nil, false
+	}
+	fc := ex.contractFor(fn)
+	if fc == nil || !fc.HasMod {
+		return nil, false
+	}
+	for _, m := range fc.Modifies {
+		if m == "everything" || strings.Contains(m, "(") {
+			return nil, false
+		}
+	}
+	defer func() {
+		if r := recover(); r != nil {
+			cells, ok = nil, false
+		}
+	}()
+	var args []Val
+	for _, a := range cc.Args {
+		if inLoop(a) {
+			if t, ok := ex.staticAddr(a, inLoop); ok {
+				args = append(args, refVal(t, a.Type()))
+				continue
+			}
+			args = append(args, Val{K: KLit, T: "unavailable"})
+			continue
+		}
+		args = append(args, ex.val(a))
+	}
+	env := &Env{c: ex.c, v: ex.v, vars: map[string]Val{}, mem: ex.cur, pkg: ex.v.pkgOf(fc.Pkg)}
+	ex.bindParams(env, fn, cc, Val{}, args)
+	for _, m := range fc.Modifies {
+		cells = append(cells, ex.lvalueCells(env, m, fc.Full())...)
+	}
+	return cells, true
+}
+
 func (ex *Exec) touchMap(mt *types.Map) {
 	c := ex.c
 	ks := c.mapKeySort(mt)
@@ -633,6 +730,14 @@ func (ex *Exec) backEdge(from, h *ssa.BasicBlock) {
 				unsup("loop %d invariant: %v", li.index, err)
 			}
 			ex.addObl(fmt.Sprintf("loop%d/inv-preserve", li.index), inv.Label, cond, t, li.pos, inv.Text, false)
+		}
+		for _, st := range li.spec.Steps {
+			env.prev = ex.headerEnv[h]
+			t, err := env.Bool(st.E)
+			if err != nil {
+				unsup("loop %d step: %v", li.index, err)
+			}
+			ex.addObl(fmt.Sprintf("loop%d/step", li.index), st.Label, cond, t, li.pos, st.Text, false)
 		}
 		if li.spec.Decreases != nil {
 			nv, err := env.Value(li.spec.Decreases.E)
